@@ -25,11 +25,15 @@ HUGE == 2000000000
 Bytes(t) ==
     CASE t = "CRLF" -> <<"CR", "LF">>
       [] t = "-1" -> <<"-", "1">>
+      [] t = "-2" -> <<"-", "2">>
+      [] t = "H256M" -> <<"$", "2", "6", "8", "4", "3", "5", "4", "5", "6", "CR", "LF">>   \* bulk header announcing 256 MiB (below every sane cap)
       [] t = "2147483648" -> <<"2", "1", "4", "7", "4", "8", "3", "6", "4", "8">>
       [] t = "9223372036854775807" -> <<"9", "2", "2", "3", "3", "7", "2", "0", "3", "6", "8", "5", "4", "7", "7", "5", "8", "0", "7">>
       [] t = "PING" -> <<"P", "I", "N", "G">>
       [] t = "A1" -> <<"*", "1", "CR", "LF">>                          \* array header announcing one argument
+      [] t = "A2" -> <<"*", "2", "CR", "LF">>
       [] t = "B1" -> <<"$", "1", "CR", "LF", "a", "CR", "LF">>         \* one complete bulk string "a"
+      [] t = "B0" -> <<"$", "0", "CR", "LF", "CR", "LF">>              \* one complete empty bulk string
       [] OTHER -> <<t>>          \* single bytes: "*", "$", "0", "1", "2", "x", "a", "CR", "LF", "SP"
 
 Digit == [c \in {"0", "1", "2", "3", "4", "5", "6", "7", "8", "9"} |->
@@ -97,7 +101,15 @@ Step(s0, c) ==
 
 RECURSIVE Feed(_, _, _)
 Feed(s, bs, i) == IF i > Len(bs) THEN s ELSE Feed(Step(s, bs[i]), bs, i + 1)
-FeedTok(s, t) == Feed(s, Bytes(t), 1)
+\* "P70K" stands for 70 000 payload bytes 'a' (more than the gateway's 64 KiB read chunk); it is only
+\* used inside a bulk payload that has more than that left, where it just counts down
+BigN == 70000
+FeedTok(s, t) ==
+    IF t = "P70K"
+    THEN IF s.mode = "payload" /\ s.rem > BigN
+         THEN [s EXCEPT !.n = s.n + BigN, !.rem = IF s.rem = HUGE THEN HUGE ELSE s.rem - BigN, !.cur = <<"P70K">>]
+         ELSE Ill(s)
+    ELSE Feed(s, Bytes(t), 1)
 RECURSIVE Run(_, _, _)
 Run(s, toks, i) == IF i > Len(toks) THEN s ELSE Run(FeedTok(s, toks[i]), toks, i + 1)
 
@@ -130,9 +142,10 @@ VARIABLES toks, au
 vars == <<toks, au>>
 Init == toks = <<>> /\ au = S0
 Next == /\ Len(toks) < Depth /\ au.mode # "ill"
-        /\ \E t \in Tokens : toks' = Append(toks, t) /\ au' = FeedTok(au, t)
+        /\ \E t \in Tokens : /\ (t = "P70K" => au.mode = "payload" /\ au.rem > BigN)
+                            /\ toks' = Append(toks, t) /\ au' = FeedTok(au, t)
 Spec == Init /\ [][Next]_vars
-\* One representative token sequence per abstract automaton state and last token: contents are
+\* One representative token sequence per abstract automaton state: contents are
 \* projected to their shape (how far a header number has got, how many fields / arguments /
 \* commands, remaining counts capped at 3).
 Min(a, b) == IF a < b THEN a ELSE b
@@ -140,14 +153,18 @@ Cap(n) == IF n = HUGE THEN HUGE ELSE Min(n, 3)
 NumShape(l) ==
     IF l = <<>> THEN "empty"
     ELSE IF l = <<"-">> THEN "minus"
-    ELSE IF Num(l).ok THEN (IF Num(l).n = HUGE THEN "huge" ELSE IF Num(l).n < 0 THEN "neg" ELSE IF Num(l).n > 2 THEN "big" ELSE ToString(Num(l).n))
+    ELSE IF Num(l).ok THEN (IF Num(l).n = HUGE THEN "huge" ELSE IF Num(l).n < 0 THEN (IF l = <<"-", "1">> THEN "neg1" ELSE "neg") ELSE IF Num(l).n > 2 THEN "big" ELSE ToString(Num(l).n))
     ELSE "bad"
 LineShape(s) ==
     IF s.mode = "inline"
     THEN LET f == Fields(s.line, 1, <<>>, <<>>) IN
          <<Min(Len(f), 3), s.line # <<>> /\ s.line[Len(s.line)] # "SP", f # <<>> /\ f[1] = <<"P", "I", "N", "G">>>>
     ELSE <<NumShape(s.line)>>
-Abs(s) == <<s.mode, s.cr, LineShape(s), Cap(s.need), Cap(s.rem), Min(Len(s.args), 3), Min(Len(s.cur), 3), Min(Len(s.cmds), 3)>>
-view == <<Abs(au), IF toks = <<>> THEN "" ELSE toks[Len(toks)]>>
+\* argument lengths (capped at 2) of the arguments collected so far and of the last complete command:
+\* an empty argument in a non-last position is a shape of its own
+Shape(a) == [i \in 1..Len(a) |-> Min(Len(a[i]), 2)]
+Abs(s) == <<s.mode, s.cr, LineShape(s), Cap(s.need), Cap(s.rem), Shape(s.args), Min(Len(s.cur), 3), Min(Len(s.cmds), 3),
+            IF s.cmds = <<>> THEN <<>> ELSE Shape(s.cmds[Len(s.cmds)]), s.n >= BigN>>
+view == Abs(au)
 EmitCase == toks = <<>> \/ PrintT(<<"CASE", ToJson([toks |-> toks, out |-> Outcome(au)])>>)
 =============================================================================
